@@ -1,7 +1,7 @@
 (* C03 -- label() returns exactly the connected components, numbered 1..n in scan order.
    fix_offset (inside fixpos) is GENERATED from the C++ sources. *)
 Require Import MV.Base.Prelude MV.Base.CInt MV.Base.Index MV.Base.BorderSpec MV.Base.Renumber.
-Require Import MV.Gen.Scalar_gen MV.Model.Filter MV.Model.Label MV.Proof.ConvProof MV.Proof.LabelProof.
+Require Import MV.Gen.Scalar_gen MV.Model.Filter MV.Model.Label MV.Model.UnionFind MV.Proof.ConvProof MV.Proof.LabelProof MV.Proof.UnionFindProof.
 
 (* the joins performed by the scan are exactly the adjacencies of the property: both pixels non-zero, both INSIDE
    the image, differing by the offset of a member of the connectivity element (any dimension, any element) *)
@@ -27,3 +27,13 @@ Theorem C03_numbering_and_count : forall f bc, wf_img f ->
   (forall n, 1 <= n <= snd (label f bc) -> In n (fst (label f bc))) /\
   (forall i, (i < length (data f))%nat -> nth i (fst (label f bc)) 0 <= 1 + maxl 0 (firstn i (fst (label f bc)))).
 Proof. exact label_numbering. Qed.
+
+(* the union-find structure as it is written in _labeled.cpp -- parent array, recursive find with path compression, join by
+   re-pointing the root of i to the root of j, final compression pass, first-appearance numbering (Model/UnionFind.v) --
+   returns exactly the labels (and label count) of the class-merging model about which the theorems above are stated:
+   every image, every connectivity element, every dimension.  (Forest invariant with a height function; find leaves every
+   parent either unchanged or at its root; a path visits distinct nodes, so the fuel N suffices; the numbering depends only on
+   the partition and the background.) *)
+Theorem C03_union_find_gives_the_same_labels : forall f bc, wf_img f -> pos_shape (shape bc) ->
+  length (shape bc) = length (shape f) -> uf_label f bc = label f bc.
+Proof. exact uf_label_is_label. Qed.
